@@ -236,6 +236,25 @@ def r19_5(ctx):
     ctx.rule("R19.5", "redirected text is data: every console.print in FileProxy passes markup=False, emoji=False and highlight=False, and prints the ANSI-decoded text (sibling agreement between write and flush)")
     c = ctx.repo.cls("file_proxy:FileProxy")
     n = 0
+
+    def decoded(f, a0):
+        if isinstance(a0, ast.Name):
+            return any(isinstance(d, ast.Assign) and norm(d.targets[0]) == a0.id and "decode_line" in norm(d.value) for d in walk_local(f.node))
+        return a0 is not None and "decode_line" in norm(a0)
+    # print wrappers: methods of the proxy that print their own parameter; the decoded-ness obligation moves to their callers
+    wrappers = {}
+    for name, lst in c.methods.items():
+        for f in lst:
+            for x in walk_local(f.node):
+                if isinstance(x, ast.Call) and isinstance(x.func, ast.Attribute) and x.func.attr in ("print", "log", "out") and "console" in norm(x.func.value) and x.args and isinstance(x.args[0], ast.Name) and x.args[0].id in f.params[1:]:
+                    wrappers[name] = f.params.index(x.args[0].id) - 1
+    for name, lst in c.methods.items():
+        for f in lst:
+            for x in walk_local(f.node):
+                if isinstance(x, ast.Call) and isinstance(x.func, ast.Attribute) and isinstance(x.func.value, ast.Name) and x.func.value.id == "self" and x.func.attr in wrappers and len(x.args) > wrappers[x.func.attr]:
+                    n += 1
+                    ctx.check(decoded(f, x.args[wrappers[x.func.attr]]), f.fq, short(x), f"{f.module.relpath}:{x.lineno}", "prints the ANSI-decoded line(s) (through the proxy's print helper)",
+                              "redirected text is printed without being passed through the ANSI decoder: its styling is lost or shown as raw escapes")
     for name, lst in c.methods.items():
         for f in lst:
             aliases = alias_map(f.node)
@@ -250,13 +269,7 @@ def r19_5(ctx):
                     ctx.check(not missing, f.fq, short(x), where, "printed with markup, emoji and highlight all off",
                               f"redirected output is printed with {missing} left on: text written to stdout such as '[bold]' or ':smile:' is rewritten (and '[/]' raises MarkupError) instead of appearing as written")
                     a0 = x.args[0] if x.args else None
-                    dec = False
-                    if isinstance(a0, ast.Name):
-                        for d in walk_local(f.node):
-                            if isinstance(d, ast.Assign) and norm(d.targets[0]) == a0.id and "decode_line" in norm(d.value):
-                                dec = True
-                    elif a0 is not None and "decode_line" in norm(a0):
-                        dec = True
+                    dec = decoded(f, a0) or (name in wrappers and isinstance(a0, ast.Name) and a0.id in f.params[1:])
                     ctx.check(dec, f.fq, short(x), where, "prints the ANSI-decoded line(s)", "redirected text is printed without being passed through the ANSI decoder: its styling is lost or shown as raw escapes")
     ctx.floor(n, 2, "console prints in FileProxy")
 
